@@ -111,6 +111,8 @@ pub enum Op {
     IntoBoxBack,
     IntoIterTake(u8, u8),
     CloneSelf,
+    /// `t.clone_from(&other)` where `other` is a freshly built array whose shape differs by (dc, dr)
+    CloneFromOther(i8, i8),
     FromViewSelf(Win),
     FromViewMutSelf(Win),
     CloneFromSlice(i8),
@@ -1043,6 +1045,36 @@ impl<'c, E: Elem + Clone + Default + Ord> Eng<'c, E> {
                 self.t = n;
                 self.ctx.class("conversion");
             }
+            Op::CloneFromOther(dc, dr) => {
+                let (oc, or) = ((c as i64 + (*dc).clamp(-2, 2) as i64).max(0) as usize, (r as i64 + (*dr).clamp(-2, 2) as i64).max(0) as usize);
+                let (oc, or) = if oc == 0 || or == 0 { (0, 0) } else { (oc, or) };
+                let (v, other_ids) = mint_line::<E>(oc * or, keyctr);
+                let keys: Vec<u8> = v.iter().map(|e| e.key()).collect();
+                let other = TooDee::from_vec(oc, or, v);
+                let old: HashSet<u64> = self.m.flat().into_iter().chain(other_ids.iter().copied()).collect();
+                self.t.clone_from(&other);
+                let n = &self.t;
+                if shape_mode {
+                    ensure!(n.size() == (oc, or) && n.data().len() == keys.len(), "clone_from-size", "clone_from of a {}x{} array gave size {:?} with {} cells", oc, or, n.size(), n.data().len());
+                    if !E::ZST {
+                        for (e, k) in n.data().iter().zip(&keys) {
+                            ensure!(e.key() == *k && (!E::TRACKED || !old.contains(&e.id())), "clone_from-cells", "clone_from cell id {} key {} (expected key {}, a new element)", e.id(), e.key(), k);
+                        }
+                        ensure!(other.data().iter().map(|e| e.id()).collect::<Vec<_>>() == other_ids, "clone_from-source-changed", "clone_from changed its source");
+                    }
+                }
+                if n.num_cols().checked_mul(n.num_rows()) == Some(n.data().len()) && n.size() == (oc, or) {
+                    self.m = Model::from_flat(oc, or, &ids_of(n));
+                } else {
+                    self.diverged = !shape_mode;
+                    self.m = Model::new();
+                }
+                if self.m.is_empty() {
+                    self.went_empty = true;
+                }
+                drop(other);
+                self.ctx.class("conversion");
+            }
             Op::FromViewSelf(win) | Op::FromViewMutSelf(win) => {
                 let (s, e) = win.resolve(c, r);
                 let valid = win_is_valid(s, e, c, r);
@@ -1209,6 +1241,7 @@ fn op_name(op: &Op) -> &'static str {
         Op::IntoBoxBack => "into_box",
         Op::IntoIterTake(..) => "into_iter",
         Op::CloneSelf => "clone",
+        Op::CloneFromOther(..) => "clone_from",
         Op::FromViewSelf(_) => "from_view",
         Op::FromViewMutSelf(_) => "from_view_mut",
         Op::CloneFromSlice(_) => "clone_from_slice",
@@ -1436,6 +1469,7 @@ pub fn op() -> impl Strategy<Value = Op> {
         1 => Just(Op::IntoBoxBack),
         1 => (0u8..6, 0u8..6).prop_map(|(f, b)| Op::IntoIterTake(f, b)),
         1 => Just(Op::CloneSelf),
+        1 => (-2i8..3, -2i8..3).prop_map(|(a, b)| Op::CloneFromOther(a, b)),
         1 => win_any().prop_map(Op::FromViewSelf),
         1 => win_any().prop_map(Op::FromViewMutSelf),
         1 => prop_oneof![6 => Just(0i8), 1 => Just(1i8), 1 => Just(-1i8)].prop_map(Op::CloneFromSlice),
